@@ -329,7 +329,7 @@ Definition gov_set (s : state) (l : list Z) (rws : list (Z * Z)) : res :=
       | None => Err e_staking
       end.
 
-(* ---------------- UpdateParams (the four parameters the registry reads) ---------------- *)
+(* ---------------- UpdateParams (the four values the registry reads) ---------------- *)
 Definition set_params (s : state) (p : params) : res :=
   if p_window p <=? 1 then Err e_basic
   else if p_fraction p <? 0 then Err e_basic
